@@ -482,6 +482,11 @@ def run_check(prop, mod, tier, seed, tmp, replay, t_start, log):
     os.makedirs(os.path.join(ROOT, "evidence"), exist_ok=True)
     with open(os.path.join(ROOT, "evidence", prop + ".json"), "w") as f:
         json.dump(evidence, f, indent=1)
+    if os.environ.get("VERIF_DEBUG"):
+        for r in [r for r in results if r["diverges"]][:int(os.environ["VERIF_DEBUG"])]:
+            print("DIVERGES", json.dumps(r["case"])[:300], "\n   impl ", json.dumps(r["impl"])[:400], "\n   model", json.dumps(r["model"])[:400])
+        for r in fails[:int(os.environ["VERIF_DEBUG"])]:
+            print("ORACLE", r["oracle"], json.dumps(r["case"])[:300], "\n   impl ", json.dumps(r["impl"])[:400])
     for l in known_lines:
         print(l)
     print("%s %s: %d cases (%d distinct non-trivial), %d divergences, %d oracle failures, obligations %d/%d, %.1fs" % (
